@@ -1,6 +1,7 @@
 """C18 Word-wrapping and line-length configuration are semantically transparent."""
 import json
 import os
+import re
 import shutil
 import subprocess
 import sys
@@ -52,7 +53,9 @@ def _ir(draw):
     ir = draw(domain.ir_strategy(allowed=tuple(domain.MUTATORS), min_params=1, max_params=4,
                                  forced=draw(st.sampled_from((None, "str_with_space", "str_with_space", "returns_default", "code_default", "spaced_literal")))))
     for i, p in enumerate(ir["params"]):
-        if "doc" in p:
+        if "doc" in p and not re.search(r"(?i)defaults to|default value is|default:", p["doc"]):
+            # (prose that already announces a value keeps its end: words appended after '... defaults to 32' would
+            # become part of the announced value)
             extra = draw(st.integers(0, 25))
             off = draw(st.integers(0, len(domain.WORDS) - 1))
             words = [domain.WORDS[(off + 3 * j) % len(domain.WORDS)] for j in range(extra)]  # one draw, many words
